@@ -1,65 +1,111 @@
 //! C05: rendered styles are pure SGR and round-trip through SGR interpretation.
+use crate::blocks;
 use crate::common::*;
 use anstyle::{Ansi256Color, AnsiColor, Color, Effects, Reset, RgbColor, Style};
-use vmodels::sgr::{self, Col, SgrStream, Sty, RENDER};
+use vmodels::sgr::{self, Col, SgrTok, Sty, Tok, RENDER};
 use vmodels::strip::{Keep, StripModel};
 
-/// Sink that interprets what is rendered, byte by byte, with the reference SGR interpreter
-/// and with the strip model (nothing may be visible text).
-pub struct SgrSink {
-    pub sgr: SgrStream<6>,
-    pub strip: StripModel,
-    pub visible: usize,
-    pub bytes: usize,
-    pub too_long: bool,
-}
-
 const FRAG_MAX: usize = 24;
+
+/// Sink that interprets what is rendered with the reference SGR interpreter.  Bytes are
+/// tokenised one by one; a completed parameter list is applied once at the end of the
+/// fragment it completed in (the tokeniser state carries over fragment boundaries, so
+/// the fragmentation chosen by the implementation does not matter).
+pub struct SgrSink {
+    pub sty: Sty,
+    tok: SgrTok<6>,
+    /// anything that is not pure, complete, well-formed SGR was seen
+    pub bad: bool,
+    /// harness limits hit (fragment longer than FRAG_MAX, two sequences ending in one fragment)
+    pub limit: bool,
+    pub seqs: usize,
+    pub bytes: usize,
+    /// optional strip model: how many bytes would survive stripping
+    strip: Option<StripModel>,
+    pub visible: usize,
+}
 
 impl SgrSink {
     pub fn new(start: Sty) -> Self {
         SgrSink {
-            sgr: SgrStream::new(start, RENDER),
-            strip: StripModel::new(),
-            visible: 0,
+            sty: start,
+            tok: SgrTok::new(),
+            bad: false,
+            limit: false,
+            seqs: 0,
             bytes: 0,
-            too_long: false,
+            strip: None,
+            visible: 0,
         }
     }
-    /// Constant trip count (fragments are at most 19 bytes: the colour buffer), so the
-    /// harness-wide unwind bound does not multiply into this loop.
-    fn feed_all(&mut self, s: &[u8]) {
+    pub fn with_strip(start: Sty) -> Self {
+        let mut s = Self::new(start);
+        s.strip = Some(StripModel::new());
+        s
+    }
+    fn fragment(&mut self, s: &[u8]) {
         if s.len() > FRAG_MAX {
-            self.too_long = true;
+            self.limit = true;
         }
-        let mut i = 0;
-        while i < FRAG_MAX {
+        let mut pending = false;
+        let mut vals = [0u16; 6];
+        let mut sub = [false; 6];
+        let mut n = 0usize;
+        blocks!(FRAG_MAX, i, {
             if i < s.len() {
-                self.sgr.feed(s[i]);
-                if self.strip.step(s[i]) != Keep::No {
-                    self.visible += 1;
-                }
                 self.bytes += 1;
+                match self.tok.feed(s[i]) {
+                    Tok::More => {}
+                    Tok::Bad => self.bad = true,
+                    Tok::Complete => {
+                        if pending {
+                            self.limit = true;
+                        }
+                        pending = true;
+                        vals = self.tok.vals;
+                        sub = self.tok.sub;
+                        n = self.tok.n;
+                    }
+                }
+                if let Some(m) = self.strip.as_mut() {
+                    if m.step(s[i]) != Keep::No {
+                        self.visible += 1;
+                    }
+                }
             }
-            i += 1;
+        });
+        if pending {
+            self.seqs += 1;
+            match sgr::apply(self.sty, &vals, &sub, n, RENDER) {
+                Some(t) => self.sty = t,
+                None => self.bad = true,
+            }
+        }
+    }
+    /// The style in effect after everything written, if it was pure and complete SGR.
+    pub fn finish(&self) -> Option<Sty> {
+        if self.bad || !self.tok.idle() {
+            None
+        } else {
+            Some(self.sty)
         }
     }
 }
 
 impl core::fmt::Write for SgrSink {
     fn write_str(&mut self, s: &str) -> core::fmt::Result {
-        self.feed_all(s.as_bytes());
+        self.fragment(s.as_bytes());
         Ok(())
     }
 }
 
 impl std::io::Write for SgrSink {
     fn write(&mut self, buf: &[u8]) -> std::io::Result<usize> {
-        self.feed_all(buf);
+        self.fragment(buf);
         Ok(buf.len())
     }
     fn write_all(&mut self, buf: &[u8]) -> std::io::Result<()> {
-        self.feed_all(buf);
+        self.fragment(buf);
         Ok(())
     }
     fn flush(&mut self) -> std::io::Result<()> {
@@ -78,179 +124,540 @@ fn expected(s: Style) -> Sty {
 }
 
 fn check_roundtrip(sink: &SgrSink, s: Style) {
-    assert!(!sink.too_long, "HARNESS-LIMIT: a fragment longer than the sink's loop bound");
-    assert!(sink.sgr.finish().is_some(), "output is a sequence of complete SGR sequences only");
-    assert!(sink.visible == 0, "stripping the rendered style leaves nothing");
-    assert!(sink.sgr.finish() == Some(expected(s)), "interpretation reproduces the style");
+    assert!(!sink.limit, "HARNESS-LIMIT: fragment longer than the sink's loop bound or two sequences in one fragment");
+    assert!(sink.finish().is_some(), "output consists of complete SGR sequences only");
+    assert!(sink.finish() == Some(expected(s)), "interpretation reproduces the style");
 }
 
-/// (a)+(c): Display of every style value interprets back to exactly that style.
-#[kani::proof]
-#[kani::unwind(14)]
-fn display_roundtrip_full() {
-    use core::fmt::Write as _;
-    let s = any_style();
-    let mut sink = SgrSink::new(Sty::default());
-    let _ = write!(sink, "{}", s);
-    check_roundtrip(&sink, s);
-    let mut sink2 = SgrSink::new(Sty::default());
-    let _ = write!(sink2, "{}", s.render());
-    check_roundtrip(&sink2, s);
-    assert!(sink.bytes == sink2.bytes);
-    kani::cover!(s.get_effects() == effects_from_bits(0xFFF) && s.get_fg_color().is_some());
-    kani::cover!(matches!(s.get_underline_color(), Some(Color::Ansi(_))));
-    kani::cover!(matches!(s.get_bg_color(), Some(Color::Rgb(_))));
-    kani::cover!(s.is_plain() && sink.bytes == 0);
+fn slot_style(slot: u8, c: Color) -> Style {
+    match slot {
+        0 => Style::new().fg_color(Some(c)),
+        1 => Style::new().bg_color(Some(c)),
+        _ => Style::new().underline_color(Some(c)),
+    }
 }
 
-/// (e): the io::Write path interprets back to the same style as well.
-#[kani::proof]
-#[kani::unwind(14)]
-fn write_to_roundtrip_full() {
-    let s = any_style();
-    let mut sink = SgrSink::new(Sty::default());
-    let r = s.write_to(&mut sink);
-    assert!(r.is_ok());
-    check_roundtrip(&sink, s);
-    kani::cover!(matches!(s.get_fg_color(), Some(Color::Ansi256(_))));
-    kani::cover!(!s.get_effects().is_plain());
+/// Captures the output as a list of fragments (one per `write_str` / `write_all` call).
+pub struct Frags<const F: usize> {
+    pub f: [Sink<20>; F],
+    pub n: usize,
+    pub too_many: bool,
 }
 
-/// Colour-only rendering entry points.
+impl<const F: usize> Frags<F> {
+    pub fn new() -> Self {
+        Frags {
+            f: core::array::from_fn(|_| Sink::new()),
+            n: 0,
+            too_many: false,
+        }
+    }
+    fn push(&mut self, s: &[u8]) {
+        if s.is_empty() {
+            return;
+        }
+        if self.n < F {
+            self.f[self.n].push_bytes(s);
+            self.n += 1;
+        } else {
+            self.too_many = true;
+        }
+    }
+    pub fn sound(&self) -> bool {
+        let mut ok = !self.too_many;
+        let mut i = 0;
+        while i < F {
+            ok &= !self.f[i].overflow;
+            i += 1;
+        }
+        ok
+    }
+    pub fn total(&self) -> usize {
+        let mut t = 0;
+        let mut i = 0;
+        while i < F {
+            t += self.f[i].len;
+            i += 1;
+        }
+        t
+    }
+}
+
+impl<const F: usize> core::fmt::Write for Frags<F> {
+    fn write_str(&mut self, s: &str) -> core::fmt::Result {
+        self.push(s.as_bytes());
+        Ok(())
+    }
+}
+
+impl<const F: usize> std::io::Write for Frags<F> {
+    fn write(&mut self, buf: &[u8]) -> std::io::Result<usize> {
+        self.push(buf);
+        Ok(buf.len())
+    }
+    fn write_all(&mut self, buf: &[u8]) -> std::io::Result<()> {
+        self.push(buf);
+        Ok(())
+    }
+    fn flush(&mut self) -> std::io::Result<()> {
+        Ok(())
+    }
+}
+
+fn frags_equal<const F: usize>(a: &Frags<F>, b: &Frags<F>) -> bool {
+    let mut ok = a.n == b.n;
+    let mut i = 0;
+    while i < F {
+        ok &= sinks_equal(&a.f[i], &b.f[i]);
+        i += 1;
+    }
+    ok
+}
+
+/// Interpret a captured text holding at most ONE SGR sequence from `start`; also count
+/// what the strip model would keep.  The parameter list is applied once, after the scan
+/// (applying inside the scan would put the interpreter under every byte position).
+/// Returns (style or None if not pure/complete SGR, visible bytes, sequences seen).
+fn interpret<const N: usize>(start: Sty, text: &Sink<N>) -> (Option<Sty>, usize, usize) {
+    let mut tok: SgrTok<6> = SgrTok::new();
+    let mut strip = StripModel::new();
+    let mut bad = false;
+    let mut visible = 0usize;
+    let mut seqs = 0usize;
+    let mut vals = [0u16; 6];
+    let mut sub = [false; 6];
+    let mut n = 0usize;
+    blocks!(N, i, {
+        if i < text.len {
+            match tok.feed(text.buf[i]) {
+                Tok::More => {}
+                Tok::Bad => bad = true,
+                Tok::Complete => {
+                    seqs += 1;
+                    vals = tok.vals;
+                    sub = tok.sub;
+                    n = tok.n;
+                }
+            }
+            if strip.step(text.buf[i]) != Keep::No {
+                visible += 1;
+            }
+        }
+    });
+    assert!(seqs <= 1, "HARNESS-LIMIT: more than one sequence in a single-part rendering");
+    let mut sty = Some(start);
+    if seqs == 1 {
+        sty = sgr::apply(start, &vals, &sub, n, RENDER);
+    }
+    if bad || !tok.idle() {
+        sty = None;
+    }
+    (sty, visible, seqs)
+}
+
+/// One colour in one slot: every colour (16 + 256 + 2^24), interpreted and stripped; the
+/// io::Write path and `render()` produce the same bytes.
+macro_rules! slot_case {
+    ($name:ident, $slot:expr) => {
+        #[kani::proof]
+        #[kani::unwind(22)]
+        fn $name() {
+            use core::fmt::Write as _;
+            let c = any_color();
+            let s = slot_style($slot, c);
+            let mut a: Sink<20> = Sink::new();
+            let _ = write!(a, "{}", s);
+            assert!(!a.overflow, "a colour code fits 19 bytes");
+            let (got, visible, _seqs) = interpret(Sty::default(), &a);
+            assert!(got.is_some(), "output consists of complete SGR sequences only");
+            assert!(got == Some(expected(s)), "interpretation reproduces the style");
+            assert!(visible == 0, "stripping the rendered style leaves nothing");
+            let mut b: Sink<20> = Sink::new();
+            let _ = write!(b, "{}", s.render());
+            assert!(sinks_equal(&a, &b), "render() equals Display");
+            let mut w: Sink<20> = Sink::new();
+            assert!(s.write_to(&mut w).is_ok());
+            assert!(sinks_equal(&a, &w), "write_to equals Display");
+            kani::cover!(matches!(c, Color::Rgb(RgbColor(255, 0, 7))));
+            kani::cover!(matches!(c, Color::Ansi256(Ansi256Color(9))));
+            kani::cover!(matches!(c, Color::Ansi(AnsiColor::BrightBlue)));
+        }
+    };
+}
+slot_case!(slot_fg, 0);
+slot_case!(slot_bg, 1);
+slot_case!(slot_underline, 2);
+
+/// Colour-only rendering entry points of every colour type equal the style's rendering.
 #[kani::proof]
-#[kani::unwind(14)]
+#[kani::unwind(22)]
 fn color_render_fg_bg() {
     use core::fmt::Write as _;
     let c = any_color();
-    let mut sink = SgrSink::new(Sty::default());
-    let _ = write!(sink, "{}", c.render_fg());
-    check_roundtrip(&sink, Style::new().fg_color(Some(c)));
-    let mut sink = SgrSink::new(Sty::default());
-    let _ = write!(sink, "{}", c.render_bg());
-    check_roundtrip(&sink, Style::new().bg_color(Some(c)));
-    // the per-kind entry points agree with the enum's
+    let mut fg: Sink<20> = Sink::new();
+    let _ = write!(fg, "{}", Style::new().fg_color(Some(c)));
+    let mut bg: Sink<20> = Sink::new();
+    let _ = write!(bg, "{}", Style::new().bg_color(Some(c)));
+    let mut a: Sink<20> = Sink::new();
+    let _ = write!(a, "{}", c.render_fg());
+    let mut b: Sink<20> = Sink::new();
+    let _ = write!(b, "{}", c.render_bg());
+    assert!(sinks_equal(&a, &fg) && sinks_equal(&b, &bg), "Color::render_fg/bg");
+    let mut a: Sink<20> = Sink::new();
+    let mut b: Sink<20> = Sink::new();
     match c {
-        Color::Ansi(a) => {
-            let mut k = SgrSink::new(Sty::default());
-            let _ = write!(k, "{}{}", a.render_fg(), a.render_bg());
-            check_roundtrip(&k, Style::new().fg_color(Some(c)).bg_color(Some(c)));
+        Color::Ansi(x) => {
+            let _ = write!(a, "{}", x.render_fg());
+            let _ = write!(b, "{}", x.render_bg());
         }
-        Color::Ansi256(a) => {
-            let mut k = SgrSink::new(Sty::default());
-            let _ = write!(k, "{}{}", a.render_fg(), a.render_bg());
-            check_roundtrip(&k, Style::new().fg_color(Some(c)).bg_color(Some(c)));
+        Color::Ansi256(x) => {
+            let _ = write!(a, "{}", x.render_fg());
+            let _ = write!(b, "{}", x.render_bg());
         }
-        Color::Rgb(a) => {
-            let mut k = SgrSink::new(Sty::default());
-            let _ = write!(k, "{}{}", a.render_fg(), a.render_bg());
-            check_roundtrip(&k, Style::new().fg_color(Some(c)).bg_color(Some(c)));
+        Color::Rgb(x) => {
+            let _ = write!(a, "{}", x.render_fg());
+            let _ = write!(b, "{}", x.render_bg());
         }
     }
-    kani::cover!(matches!(c, Color::Rgb(RgbColor(255, 0, 7))));
-    kani::cover!(matches!(c, Color::Ansi256(Ansi256Color(9))));
+    assert!(sinks_equal(&a, &fg) && sinks_equal(&b, &bg), "per-type render_fg/bg");
+    kani::cover!(matches!(c, Color::Rgb(_)));
+    kani::cover!(matches!(c, Color::Ansi(_)));
 }
 
-/// (b): effects alone.
+/// Each of the twelve effects alone (concrete): interprets to exactly that effect.
+macro_rules! effects_single_case {
+    ($name:ident, $from:expr, $to:expr) => {
+        #[kani::proof]
+        #[kani::unwind(22)]
+        fn $name() {
+            use core::fmt::Write as _;
+            let mut i = $from;
+            while i < $to {
+                let s = Style::new().effects(EFFECTS[i]);
+                let mut a: Sink<8> = Sink::new();
+                let _ = write!(a, "{}", s);
+                assert!(!a.overflow);
+                let (got, visible, _seqs) = interpret(Sty::default(), &a);
+                assert!(got == Some(expected(s)), "a single effect interprets to exactly that effect");
+                assert!(visible == 0);
+                let mut b: Sink<8> = Sink::new();
+                let _ = write!(b, "{}", EFFECTS[i].render());
+                let mut w: Sink<8> = Sink::new();
+                assert!(s.write_to(&mut w).is_ok());
+                assert!(sinks_equal(&a, &b) && sinks_equal(&a, &w));
+                i += 1;
+            }
+            kani::cover!(i == $to);
+        }
+    };
+}
+effects_single_case!(effects_single_0_3, 0, 3);
+effects_single_case!(effects_single_3_6, 3, 6);
+effects_single_case!(effects_single_6_9, 6, 9);
+effects_single_case!(effects_single_9_12, 9, 12);
+
+/// Sink that recognises each fragment as the rendering of one part (one effect, or the
+/// colour of one slot) and checks presence and order.  The parts' renderings are taken
+/// from the real code (single-part styles), whose interpretation `slot_*` and
+/// `effects_single` establish; interpretation is compositional over complete sequences.
+struct Parts<'a> {
+    eff: &'a [Sink<8>; 12],
+    col: [Option<&'a Sink<20>>; 3],
+    last_eff: i32,
+    seen_eff: u16,
+    /// number of colour slots passed (0..=3)
+    stage: usize,
+    seen_col: [bool; 3],
+    ok: bool,
+    unmatched: bool,
+}
+
+fn frag_eq<const N: usize>(s: &[u8], r: &Sink<N>) -> bool {
+    if s.len() != r.len {
+        return false;
+    }
+    let mut same = true;
+    blocks!(N, i, {
+        if i < r.len && i < s.len() && s[i] != r.buf[i] {
+            same = false;
+        }
+    });
+    same
+}
+
+impl<'a> Parts<'a> {
+    fn new(eff: &'a [Sink<8>; 12], col: [Option<&'a Sink<20>>; 3]) -> Self {
+        Parts {
+            eff,
+            col,
+            last_eff: -1,
+            seen_eff: 0,
+            stage: 0,
+            seen_col: [false; 3],
+            ok: true,
+            unmatched: false,
+        }
+    }
+    fn fragment(&mut self, s: &[u8]) {
+        if s.is_empty() {
+            return;
+        }
+        let mut matched = false;
+        let mut k = 0;
+        while k < 12 {
+            if !matched && frag_eq(s, &self.eff[k]) {
+                matched = true;
+                // effects come first, in declaration order, each once
+                if self.stage != 0 || (k as i32) <= self.last_eff {
+                    self.ok = false;
+                }
+                self.last_eff = k as i32;
+                self.seen_eff |= 1 << k;
+            }
+            k += 1;
+        }
+        let mut j = 0;
+        while j < 3 {
+            if !matched {
+                if let Some(r) = self.col[j] {
+                    if frag_eq(s, r) {
+                        matched = true;
+                        if j < self.stage {
+                            self.ok = false;
+                        }
+                        self.stage = j + 1;
+                        self.seen_col[j] = true;
+                    }
+                }
+            }
+            j += 1;
+        }
+        if !matched {
+            self.unmatched = true;
+        }
+    }
+}
+
+impl core::fmt::Write for Parts<'_> {
+    fn write_str(&mut self, s: &str) -> core::fmt::Result {
+        self.fragment(s.as_bytes());
+        Ok(())
+    }
+}
+
+impl std::io::Write for Parts<'_> {
+    fn write(&mut self, buf: &[u8]) -> std::io::Result<usize> {
+        self.fragment(buf);
+        Ok(buf.len())
+    }
+    fn write_all(&mut self, buf: &[u8]) -> std::io::Result<()> {
+        self.fragment(buf);
+        Ok(())
+    }
+    fn flush(&mut self) -> std::io::Result<()> {
+        Ok(())
+    }
+}
+
+fn effect_refs() -> [Sink<8>; 12] {
+    use core::fmt::Write as _;
+    let mut refs: [Sink<8>; 12] = core::array::from_fn(|_| Sink::new());
+    let mut i = 0;
+    while i < 12 {
+        let _ = write!(refs[i], "{}", Style::new().effects(EFFECTS[i]));
+        i += 1;
+    }
+    refs
+}
+
+fn check_parts(p: &Parts<'_>, s: Style) {
+    assert!(!p.unmatched, "output is the concatenation of the renderings of the style's parts");
+    assert!(p.ok, "parts in order: effects by declaration, then fg, bg, underline");
+    assert!(p.seen_eff == effects_bits(s.get_effects()), "exactly the style's effects");
+    assert!(p.seen_col[0] == s.get_fg_color().is_some(), "foreground rendered iff set");
+    assert!(p.seen_col[1] == s.get_bg_color().is_some(), "background rendered iff set");
+    assert!(p.seen_col[2] == s.get_underline_color().is_some(), "underline colour rendered iff set");
+}
+
+macro_rules! structure_case {
+    ($name:ident, $render:expr) => {
+        /// Whole styles, everything symbolic: the output is the in-order concatenation of
+        /// the renderings of exactly the parts the style has.
+        #[kani::proof]
+        #[kani::unwind(22)]
+        fn $name() {
+            use core::fmt::Write as _;
+            let s = any_style();
+            let eff = effect_refs();
+            let mut cols: [Sink<20>; 3] = core::array::from_fn(|_| Sink::new());
+            if let Some(c) = s.get_fg_color() {
+                let _ = write!(cols[0], "{}", slot_style(0, c));
+            }
+            if let Some(c) = s.get_bg_color() {
+                let _ = write!(cols[1], "{}", slot_style(1, c));
+            }
+            if let Some(c) = s.get_underline_color() {
+                let _ = write!(cols[2], "{}", slot_style(2, c));
+            }
+            let col = [
+                s.get_fg_color().map(|_| &cols[0]),
+                s.get_bg_color().map(|_| &cols[1]),
+                s.get_underline_color().map(|_| &cols[2]),
+            ];
+            let mut p = Parts::new(&eff, col);
+            let render: fn(&mut Parts<'_>, Style) = $render;
+            render(&mut p, s);
+            check_parts(&p, s);
+            kani::cover!(p.seen_eff == 0xFFF && p.seen_col[0] && p.seen_col[1] && p.seen_col[2]);
+            kani::cover!(s.is_plain());
+            kani::cover!(p.seen_col[2] && !p.seen_col[0] && p.seen_eff.count_ones() == 2);
+        }
+    };
+}
+structure_case!(style_structure_display, |p, s| {
+    use core::fmt::Write as _;
+    let _ = write!(p, "{}", s);
+});
+structure_case!(style_structure_render, |p, s| {
+    use core::fmt::Write as _;
+    let _ = write!(p, "{}", s.render());
+});
+structure_case!(style_structure_write_to, |p, s| {
+    assert!(s.write_to(p).is_ok());
+});
+
+/// Effects alone through `Effects::render`.
 #[kani::proof]
-#[kani::unwind(14)]
-fn effects_render() {
+#[kani::unwind(22)]
+fn effects_structure() {
     use core::fmt::Write as _;
     let e = effects_from_bits(any_effect_bits());
-    let mut sink = SgrSink::new(Sty::default());
-    let _ = write!(sink, "{}", e.render());
-    check_roundtrip(&sink, Style::new().effects(e));
-    assert!(sink.sgr.seqs as u32 == effects_bits(e).count_ones(), "one sequence per effect");
-    kani::cover!(sink.sgr.seqs == 12);
-    kani::cover!(sink.sgr.seqs == 1);
+    let eff = effect_refs();
+    let mut p = Parts::new(&eff, [None, None, None]);
+    let _ = write!(p, "{}", e.render());
+    check_parts(&p, Style::new().effects(e));
+    kani::cover!(p.seen_eff == 0xFFF);
+    kani::cover!(p.seen_eff.count_ones() == 1);
 }
 
-/// (d): the reset form: empty exactly for the plain style, otherwise returns any terminal
-/// state to default.
+/// The reset form: empty exactly for the plain style, otherwise `ESC[0m`-equivalent.
 #[kani::proof]
-#[kani::unwind(14)]
+#[kani::unwind(22)]
 fn reset_forms() {
     use core::fmt::Write as _;
     let s = any_style();
     let before = sty_of(any_style());
-    let mut sink = SgrSink::new(before);
-    let _ = write!(sink, "{:#}", s);
-    assert!(sink.sgr.finish().is_some() && sink.visible == 0);
-    assert!((sink.bytes == 0) == s.is_plain(), "reset is empty exactly when the style is plain");
+    let mut a: Sink<8> = Sink::new();
+    let _ = write!(a, "{:#}", s);
+    assert!(!a.overflow);
+    assert!((a.len == 0) == s.is_plain(), "reset is empty exactly when the style is plain");
+    let (got, visible, _seqs) = interpret(before, &a);
+    assert!(got.is_some() && visible == 0, "reset is pure SGR");
     if !s.is_plain() {
-        assert!(sink.sgr.finish() == Some(Sty::default()), "reset returns the terminal to default");
+        assert!(got == Some(Sty::default()), "reset returns the terminal to default");
     }
-    let mut sink2 = SgrSink::new(before);
-    let _ = write!(sink2, "{}", s.render_reset());
-    assert!(sink2.bytes == sink.bytes && sink2.sgr.finish() == sink.sgr.finish());
-    let mut sink3 = SgrSink::new(before);
-    assert!(s.write_reset_to(&mut sink3).is_ok());
-    assert!(sink3.bytes == sink.bytes && sink3.sgr.finish() == sink.sgr.finish());
-    let mut r = SgrSink::new(before);
-    let _ = write!(r, "{}{}", Reset, Reset.render());
-    assert!(r.sgr.finish() == Some(Sty::default()) && r.sgr.seqs == 2 && r.visible == 0);
+    let mut b: Sink<8> = Sink::new();
+    let _ = write!(b, "{}", s.render_reset());
+    let mut w: Sink<8> = Sink::new();
+    assert!(s.write_reset_to(&mut w).is_ok());
+    assert!(sinks_equal(&a, &b) && sinks_equal(&a, &w), "the three reset paths agree");
+    let mut r: Sink<8> = Sink::new();
+    let _ = write!(r, "{}", Reset);
+    let (got, visible, _seqs) = interpret(before, &r);
+    assert!(got == Some(Sty::default()) && visible == 0, "Reset returns the terminal to default");
+    let mut r2: Sink<8> = Sink::new();
+    let _ = write!(r2, "{}", Reset.render());
+    assert!(sinks_equal(&r, &r2));
     kani::cover!(s.is_plain());
     kani::cover!(!s.is_plain() && before.eff != 0);
 }
 
-/// (e) byte equality of the Display path and the io::Write path, and (f) of every flagged
-/// form with the unflagged one, on the shape "one effect + one colour in one slot" (all
-/// values symbolic).  Full styles are covered by interpretation above.
-fn small_style() -> Style {
-    let i: usize = kani::any();
-    kani::assume(i < 12);
-    let c = any_color();
-    let slot: u8 = kani::any();
-    let s = Style::new().effects(EFFECTS[i]);
-    match slot % 3 {
-        0 => s.fg_color(Some(c)),
-        1 => s.bg_color(Some(c)),
-        _ => s.underline_color(Some(c)),
-    }
-}
-
-#[kani::proof]
-#[kani::unwind(14)]
-fn display_equals_write_to_bytes() {
-    use core::fmt::Write as _;
-    let s = small_style();
-    let mut a: Sink<32> = Sink::new();
-    let _ = write!(a, "{}", s);
-    let mut b: Sink<32> = Sink::new();
-    assert!(s.write_to(&mut b).is_ok());
-    assert!(!a.overflow && !b.overflow);
-    assert!(sinks_equal(&a, &b), "Display and write_to produce the same bytes");
-    kani::cover!(a.len > 20);
+/// Format flags: every flagged form produces the same fragments as the unflagged one (no
+/// padding, fill, truncation).  Shape: two concrete effects + symbolic colours in the
+/// foreground and underline slots, no background.
+fn flag_style() -> Style {
+    Style::new()
+        .effects(Effects::BOLD | Effects::STRIKETHROUGH)
+        .fg_color(Some(any_color()))
+        .underline_color(Some(Color::Ansi256(Ansi256Color(kani::any()))))
 }
 
 macro_rules! flag_case {
-    ($name:ident, $($fmt:literal),+) => {
+    ($name:ident, $(($label:ident, $fmt:literal)),+) => {
         #[kani::proof]
-        #[kani::unwind(14)]
+        #[kani::unwind(22)]
         fn $name() {
             use core::fmt::Write as _;
-            let s = small_style();
-            let mut plain: Sink<32> = Sink::new();
+            let s = flag_style();
+            let mut plain: Frags<6> = Frags::new();
             let _ = write!(plain, "{}", s);
-            let mut plain_reset: Sink<32> = Sink::new();
+            let mut plain_reset: Frags<6> = Frags::new();
             let _ = write!(plain_reset, "{:#}", s);
+            assert!(plain.sound() && plain_reset.sound());
             $(
-                let mut f: Sink<32> = Sink::new();
+                let mut f: Frags<6> = Frags::new();
                 let _ = write!(f, $fmt, s);
-                assert!(!f.overflow);
+                assert!(f.sound(), concat!("flags add nothing, format ", stringify!($label)));
                 if $fmt.contains('#') {
-                    assert!(sinks_equal(&f, &plain_reset), concat!("flags change nothing: ", $fmt));
+                    assert!(frags_equal(&f, &plain_reset), concat!("flags change nothing, format ", stringify!($label)));
                 } else {
-                    assert!(sinks_equal(&f, &plain), concat!("flags change nothing: ", $fmt));
+                    assert!(frags_equal(&f, &plain), concat!("flags change nothing, format ", stringify!($label)));
                 }
             )+
-            kani::cover!(plain.len > 20);
+            kani::cover!(plain.n == 4 && plain_reset.n == 1);
         }
     };
 }
 
-flag_case!(flags_width, "{:10}", "{:<10}", "{:>12}", "{:^7}");
-flag_case!(flags_fill, "{:*^7}", "{:-<30}", "{:0>8}", "{:08}");
-flag_case!(flags_precision, "{:.2}", "{:.0}", "{:10.3}", "{:>5.1}");
-flag_case!(flags_alternate, "{:#10}", "{:#.1}", "{:>#12.3}", "{:#<2}");
-flag_case!(flags_alternate2, "{:*^#9}", "{:#.0}", "{:#30}", "{:+#1}");
-flag_case!(flags_misc, "{:+}", "{:1}", "{:31}", "{:<1.40}");
+flag_case!(flags_width, (f_10, "{:10}"), (f_left10, "{:<10}"), (f_right12, "{:>12}"), (f_center7, "{:^7}"));
+flag_case!(flags_fill, (f_starcenter7, "{:*^7}"), (f_dashleft11, "{:-<11}"), (f_0right8, "{:0>8}"), (f_08, "{:08}"));
+flag_case!(flags_precision, (f_p2, "{:.2}"), (f_p0, "{:.0}"), (f_10p3, "{:10.3}"), (f_right5p1, "{:>5.1}"));
+flag_case!(flags_alternate, (f_alt10, "{:#10}"), (f_altp1, "{:#.1}"), (f_rightalt12p3, "{:>#12.3}"), (f_altleft2, "{:#<2}"));
+flag_case!(flags_alternate2, (f_starcenteralt9, "{:*^#9}"), (f_altp0, "{:#.0}"), (f_alt12, "{:#12}"), (f_plusalt1, "{:+#1}"));
+flag_case!(flags_misc, (f_plus, "{:+}"), (f_1, "{:1}"), (f_9, "{:9}"), (f_left1p12, "{:<1.12}"));
+
+/// The plain style under flags: nothing at all may be written.
+#[kani::proof]
+#[kani::unwind(22)]
+fn flags_plain_style() {
+    use core::fmt::Write as _;
+    let mut f: Frags<6> = Frags::new();
+    let _ = write!(f, "{:10}{:#10}{:*^7}{:#.1}", Style::new(), Style::new(), Style::new(), Style::new());
+    assert!(f.n == 0 && !f.too_many, "a plain style renders nothing whatever the flags");
+    kani::cover!(f.n == 0);
+}
+
+/// Slow, fragmentation-independent cross-check of whole styles (thorough tier and
+/// fall-back when a structural query fails): interpret everything that is written.
+fn kind_color(kind: u8) -> Color {
+    match kind {
+        0 => Color::Ansi(any_ansi()),
+        1 => Color::Ansi256(Ansi256Color(kani::any())),
+        _ => Color::Rgb(RgbColor(kani::any(), kani::any(), kani::any())),
+    }
+}
+
+macro_rules! full_case {
+    ($disp:ident, $kf:expr, $kb:expr, $ku:expr, $bits:expr) => {
+        #[kani::proof]
+        #[kani::unwind(14)]
+        fn $disp() {
+            use core::fmt::Write as _;
+            let s = Style::new()
+                .fg_color(Some(kind_color($kf)))
+                .bg_color(Some(kind_color($kb)))
+                .underline_color(Some(kind_color($ku)))
+                .effects(effects_from_bits($bits));
+            let mut sink = SgrSink::new(Sty::default());
+            let _ = write!(sink, "{}", s);
+            check_roundtrip(&sink, s);
+            let mut w = SgrSink::new(Sty::default());
+            assert!(s.write_to(&mut w).is_ok());
+            check_roundtrip(&w, s);
+            kani::cover!(sink.bytes > 30);
+        }
+    };
+}
+full_case!(full_interpret_ansi_rgb_256, 0, 2, 1, 0b1000_0000_1001);
+full_case!(full_interpret_rgb_256_ansi, 2, 1, 0, 0b0101_0010_0100);
+full_case!(full_interpret_256_ansi_rgb, 1, 0, 2, 0b0010_1101_0010);
